@@ -87,7 +87,14 @@ def roots():
                                             sym.field(("bool",), "z", 3)])
         return sym.schema([mode, unit, other, m])
 
+    def r_cells(ids):
+        # an array of messages whose element holds an array under the SAME field number as the outer array (renumbering either breaks the coincidence)
+        cell = sym.msg(ids, "Cell", False, [sym.field(sym.arr(("uint", 4), 3), "taps", 1), sym.field(("uint", 5), "gain", 2)])
+        m = sym.msg(ids, ROOT_MSG, False, [sym.field(sym.arr(("ref", cell["id"]), 2), "cells", 1), sym.field(("uint", 3), "tail", 2)])
+        return sym.schema([cell, m])
+
     add("deep", r_deep)
+    add("cells", r_cells)
     add("flat", r_flat)
     add("enum_alias", r_enum_alias)
     add("nested", r_nested)
